@@ -38,7 +38,10 @@ pub fn order_model(parent: &Element, new: ElementName, version: AutosarVersion) 
     let content: Vec<ElementContent> = parent.content().collect();
     let len = content.len();
     if mode == ContentMode::Bag || mode == ContentMode::Mixed {
-        return Ok(OrderVerdict { allowed: true, valid: (0..=len).collect() });
+        // any order - except that nothing may be placed in front of the SHORT-NAME of an identifiable element (the
+        // element is identified through its first sub element); the only such types are the two ECUC-QUERY-EXPRESSIONs of 4.0.1
+        let first_is_short_name = matches!(content.first(), Some(ElementContent::Element(e)) if e.element_name() == ElementName::ShortName && ptype.is_named_in_version(version));
+        return Ok(OrderVerdict { allowed: true, valid: (usize::from(first_is_short_name)..=len).collect() });
     }
     let mut kids: Vec<(usize, Vec<usize>)> = Vec::new();
     for (i, c) in content.iter().enumerate() {
@@ -270,6 +273,92 @@ fn check_reload(rep: &mut Report, model: &AutosarModel, log: &[String], case: u6
     }
 }
 
+/// directed part: for every enumeration typed element and every item that exists in some but not all versions of the
+/// element's path, the element (and its parent) is copied from a model of a version that has the item into a model
+/// of a version that lacks it; afterwards every value of the destination model must be inside its value space
+fn enum_copy_sweep(rep: &mut Report, walk: &SpecWalk, thorough: bool) {
+    let mut jobs: Vec<(ElementType, autosar_data_specification::EnumItem, AutosarVersion, AutosarVersion)> = Vec::new();
+    for info in &walk.types {
+        let t = info.etype;
+        let Some(CharacterDataSpec::Enum { items }) = t.chardata_spec() else { continue };
+        if t.content_mode() != ContentMode::Characters {
+            continue;
+        }
+        let pv = path_versions(walk, t);
+        let mut per_type = 0;
+        for (item, mask) in *items {
+            let (with, without) = (pv & mask, pv & !mask);
+            if with == 0 || without == 0 {
+                continue;
+            }
+            let hi = |m: u32| ALL_VERSIONS.iter().rev().find(|v| m & **v as u32 != 0).copied();
+            if let (Some(va), Some(vb)) = (hi(with), hi(without)) {
+                jobs.push((t, *item, va, vb));
+                per_type += 1;
+                if !thorough && per_type >= 2 {
+                    break;
+                }
+            }
+        }
+    }
+    rep.count("enum_copy.jobs", jobs.len() as u64);
+    let jobs_ref = &jobs;
+    let shards = 32;
+    run_shards(rep, shards, cpu_count(), 64, |shard, sub| {
+        for (j, (t, item, va, vb)) in jobs_ref.iter().enumerate() {
+            if j % shards != shard {
+                continue;
+            }
+            for whole_parent in [false, true] {
+                let (m1, _f1) = model_for_version(*va);
+                let (m2, _f2) = model_for_version(*vb);
+                let (mut k1, mut k2) = (0, 500);
+                let (Ok(e1), Ok(e2)) = (build_to(&m1, walk, *t, &mut k1), build_to(&m2, walk, *t, &mut k2)) else {
+                    sub.count("enum_copy.not_reachable_through_the_api", 1);
+                    continue;
+                };
+                if e1.set_character_data(*item).is_err() {
+                    sub.count("enum_copy.source_value_rejected", 1);
+                    continue;
+                }
+                let (src, victim) = if whole_parent {
+                    match (e1.parent(), e2.parent()) {
+                        (Ok(Some(p1)), Ok(Some(p2))) if p2.parent().ok().flatten().is_some() => (p1, p2),
+                        _ => continue,
+                    }
+                } else {
+                    (e1.clone(), e2.clone())
+                };
+                let Ok(Some(dest)) = victim.parent() else { continue };
+                if dest.remove_sub_element(victim).is_err() {
+                    continue;
+                }
+                let r = crate::panicmon::catch(|| dest.create_copied_sub_element(&src));
+                sub.evaluations += 1;
+                sub.count(if whole_parent { "enum_copy.parent_copies" } else { "enum_copy.element_copies" }, 1);
+                match &r {
+                    Ok(Ok(_)) => sub.count("enum_copy.copy_ok", 1),
+                    Ok(Err(_)) => sub.count("enum_copy.copy_err", 1),
+                    Err(_) => {
+                        sub.count("histories_cut_short_by_panic_or_hang(belongs to C12)", 1);
+                        continue;
+                    }
+                }
+                let log = vec![format!("{} {item} built in {va:?}; {} copied into a model of {vb:?} -> {}", e1.xml_path(), src.element_name(), match &r { Ok(Ok(_)) => "Ok".to_string(), Ok(Err(e)) => crate::hist::err_variant(e), Err(_) => "panic".into() })];
+                for (_, e) in m2.elements_dfs() {
+                    if let Err((class, why)) = values_conform(&e, *vb) {
+                        viol(sub, "built/value-outside-value-space", &format!("{class}:after=Copy"), format!("in {}: {why}", e.xml_path()), &log, j as u64, 0);
+                        break;
+                    }
+                }
+                sub.eval(Some(hash_str(&log[0])));
+            }
+        }
+    });
+    rep.require("enum_copy.element_copies", 40);
+    rep.require("enum_copy.parent_copies", 40);
+}
+
 pub fn run(rep: &mut Report, tier: &str) {
     crate::histprops::setup_monitors();
     let thorough = tier == "thorough";
@@ -278,7 +367,7 @@ pub fn run(rep: &mut Report, tier: &str) {
     rep.rule = "for element types taken round-robin from all types of the specification and versions in which they exist: a model is built through the API along the shortest path to the type, then 25 random editing calls (create / create-at / named / copy / move / remove / set data / set attribute, values inside and outside the value space) run on it; after every call the insertion range, the allowed list and create-at at every position are compared with an independent pairwise order model on the touched parents, and the children of every touched parent must conform (order, exclusive choice, single occurrence); at the end the file is serialized and validated by the lenient loader. Distinct by (type, version, call log); non-trivial = at least one successful structural mutation".into();
     rep.assumptions.push("the order model uses find_sub_element / find_common_group / multiplicity of the specification crate (subject of C18) as its tables".into());
     let n_types = walk.types.len();
-    let cases = if thorough { n_types * 3 } else { 2500 };
+    let cases = if thorough { n_types * 16 } else { n_types * 2 };
     let shards = 64;
     let per = cases.div_ceil(shards);
     let walk_ref = &walk;
@@ -449,6 +538,7 @@ pub fn run(rep: &mut Report, tier: &str) {
             crate::lockmon::activate(false);
         }
     });
+    enum_copy_sweep(rep, &walk, thorough);
     rep.require("types_built", (cases / 2) as u64);
     rep.require("o1.range_comparisons", 50_000);
     rep.require("o1.create_at_probes", 10_000);
